@@ -39,13 +39,13 @@ class C06(common.SpecCheck):
                    "known finding OUTONLY-INVERTED is left out by the generators (witness only)"]
 
     def gen(self, rng, k):
-        return classes.gen_mixed(rng, [("S", 4), ("O", 4), ("A", 2), ("A+", 2), ("K", 3), ("T", 5), ("P", 1), ("M", 4)])
+        return classes.gen_mixed(rng, [("S", 4), ("O", 4), ("A", 2), ("A+", 2), ("K", 3), ("T", 5), ("P", 1), ("M", 4), ("Mp", 1)])
 
     def nontrivial(self, spec, meta):
         return True
 
     def judge(self, spec, meta, inputs, results):
-        vs = common.rejection_violations(results, must_accept=meta.get("class") not in ("M", "A+"), allowed=REJ)
+        vs = common.rejection_violations(results, must_accept=meta.get("class") not in ("M", "Mp", "A+"), allowed=REJ)
         vs += common.closed_violations(results)
         if not vs:
             # a use-before-def the static pass cannot see still shows up as a NameError when executed
